@@ -19,6 +19,7 @@ TAdd == /\ E.ev = "pb_add"
            THEN data' = data \o E.elem /\ elements' = elements + 1 /\ Obs(data', elements')   \* E.elem: the element serialised on its own
            ELSE \* the 256th element: the only behaviour allowed is refusal, at the add or at serialisation
                 /\ Judge("C18", E.panic, I("oversize_not_refused"))
+                /\ Judge("C15", E.panic, I("builder_accepts_what_the_package_refuses"))
                 /\ UNCHANGED <<data, elements>>
 TPush == E.ev = "pb_push" /\ data' = data \o E.d /\ UNCHANGED elements /\ Obs(data', elements)
 
